@@ -36,8 +36,12 @@
 // ---------------------------------------------------------------------------------------------
 static const int kSanitizerExit = 99;
 extern "C" const char *__asan_default_options() {
+    // free_fill: freed memory is overwritten with 0xe5, so that a use-after-free committed by the
+    // (uninstrumented) Rust half of the binding reads garbage instead of the stale, plausible
+    // contents; fast_unwind_on_malloc=0: alloc/free stacks have to be unwound through Rust frames.
     return "exitcode=99:halt_on_error=1:abort_on_error=0:detect_leaks=1:handle_abort=0:"
-           "detect_stack_use_after_return=1:strict_string_checks=1";
+           "detect_stack_use_after_return=1:strict_string_checks=1:fast_unwind_on_malloc=0:"
+           "max_free_fill_size=1048576:free_fill_byte=229";
 }
 extern "C" const char *__ubsan_default_options() {
     return "halt_on_error=1:exitcode=99:print_stacktrace=1";
@@ -268,11 +272,14 @@ static std::string report_headline(const std::string &err) {
 /// First symbolized stack frame that lies in the binding's headers (`where …` line; extension).
 static std::string report_header_frame(const std::string &err) {
     for (const auto &l : to_lines(err, false)) {
-        size_t k = l.find("/repo/cpp/include/");
+        size_t k = l.find("cpp/include/resolvo_");
         if (k == std::string::npos) continue;
         size_t in = l.find(" in ");
-        std::string what = in != std::string::npos ? l.substr(in + 4) : l.substr(k);
-        return normalize_report_line(what);
+        if (in == std::string::npos || in > k) return normalize_report_line(l.substr(k + 12));
+        // "<function> <dir>/cpp/include/resolvo_x.h:L:C" -> "<function> resolvo_x.h:L:C"
+        size_t path = l.rfind(' ', k);
+        std::string fn = l.substr(in + 4, path == std::string::npos || path < in + 4 ? 0 : path - in - 4);
+        return normalize_report_line(fn + " " + l.substr(k + 12));
     }
     return "";
 }
@@ -592,6 +599,10 @@ static std::string hex(std::string_view s) {
 
 static void solve_case_body(const CaseBlock &c, FILE *o) {
     TableProvider provider(parse_universe(c.lines));
+    if (!provider.u.has_problem) {  // like the Rust harness: nothing to solve
+        fprintf(o, "note no-problem-line\n");
+        return;
+    }
     resolvo::Vector<resolvo::Requirement> reqs;
     resolvo::Vector<resolvo::VersionSetId> cons;
     resolvo::Vector<resolvo::SolvableId> soft;
@@ -656,6 +667,23 @@ static void containers_case_body(const CaseBlock &c, FILE *o) {
             auto t = split(line);
             if (t.empty()) continue;
             const std::string &op = t[0];
+            // self-test operations for the fork / sanitizer plumbing (never generated by the framework)
+            if (op == "xleak") {
+                volatile char *leaked = static_cast<char *>(malloc(64));
+                leaked[0] = 1;
+                leaked = nullptr;
+                fprintf(o, "leaked 64\n");
+                fflush(o);
+                continue;
+            }
+            if (op == "xabort") {
+                fflush(o);
+                abort();
+            }
+            if (op == "xthrow") {
+                fflush(o);
+                throw 1;
+            }
             unsigned h = 0, g = 0;
             bool is_vec_op = op[0] == 'v';
             char kind = is_vec_op ? 'v' : 's';
